@@ -32,7 +32,8 @@ class C09(core.Check):
         'double:cli+cli', 'double:cli+define', 'double:define+define', 'expands-to:register', 'expands-to:label',
         'expands-to:expression', 'source:isa', 'source:cli', 'source:define', 'unparenthesised-expression-value', 'double:identical-text',
         'cycle:replacement-is-the-bare-name-itself', 'quoted-value-used', 'quoted-value-with-blank-run', 'valueless-symbol-used', 'define-while-muted', 'same-line-text-repeated', 'quoted-value-from:isa', 'quoted-value-from:cli', 'quoted-value-from:define',
-        'symbol-inside-a-string', 'symbol-inside-a-string:replaced', 'config-symbol-value-written-as-a-number']}
+        'symbol-inside-a-string', 'symbol-inside-a-string:replaced', 'config-symbol-value-written-as-a-number',
+        'adjacent:case', 'symbol-and-its-other-case-twin-on-one-line']}
 
     def build(self, rng, mode, quoted=None, muted=None, nil=None, in_string=None):
         tags = set()
@@ -49,8 +50,9 @@ class C09(core.Check):
         pre_lines = []
 
         def neighbour(n):
-            k = rng.choice(['prefix', 'suffix', 'infix'])
-            nm = {'prefix': n + 'BAR', 'suffix': 'X' + n, 'infix': 'A_' + n + '_B'}[k]
+            k = rng.choice(['prefix', 'suffix', 'infix', 'case', 'case'])
+            # (names are case sensitive: the same letters in the other case are another identifier)
+            nm = {'prefix': n + 'BAR', 'suffix': 'X' + n, 'infix': 'A_' + n + '_B', 'case': n.swapcase()}[k]
             return nm, k
         for n in names:
             if rng.random() < 0.7:
@@ -241,6 +243,11 @@ class C09(core.Check):
                     atoms.append(rng.choice(sorted(consts)))
                 else:
                     atoms.append(gen_prog.num_text(rng.randrange(0, 100), rng))
+            twin_ = [a_ for a_ in atoms if a_ in all_names and a_.swapcase() in consts]
+            if twin_ and rng.random() < 0.7:
+                atoms.append(twin_[0].swapcase())
+            if any(a_.swapcase() in atoms and a_ in all_names for a_ in atoms):
+                tags.add('symbol-and-its-other-case-twin-on-one-line')
             op = rng.choice([' + ', ' + ', ' * ', ' - '])
             text = op.join(atoms)
             if prev_texts and rng.random() < 0.3:
